@@ -26,7 +26,7 @@ ASSUMPTIONS = [
     "an event's name is '' when no `event:` field was given (ioflo's representation); id is the last id seen so far or None",
     "the stream is not closed; BOM handling (EventSource.parseEventStream is not used by EventSource.parse) is outside the claim",
     "parse() is called once after every received piece, empty pieces included",
-    "cut offsets / EOL selectors are realised (enumerated by the engine); the parser runs untraced",
+    "cut offsets are pinned per path by solver bisection, EOL selectors are realised (both enumerated by the engine); the parser runs untraced",
 ]
 LEVEL_NOTE = "selector-symbolic: solver proves the bounded skeleton x EOL-assignment x split space was exhausted; each path is a concrete run of the real parser against a reference parser"
 TECHNIQUE = "bounded exhaustive enumeration driven by the CrossHair/z3 search tree; differential against an independent SSE reference parser"
